@@ -3311,6 +3311,8 @@ impl KotoVm {
                 self.call_callable(
                     CallInfo {
                         instance: Some(info.frame_base),
+                        // The packed arguments have been unpacked above
+                        packed_arg_count: 0,
                         ..info
                     },
                     f,
